@@ -9,6 +9,9 @@ def run(ck: Check):
     ex = Explorer(ck, oracles=[oracle_c11])
     driver_universe(ex, ck, aborts=False)
     extra(ex, ck)
+    from explore import oracle_session
+    from universe import session_universe
+    session_universe(ck, oracle_session, quick=ck.tier == "quick")
     ex.diff()
     return ck.finish(level="proof", rule=RULE + EXTRA_RULE, assumptions=ASSUME)
 
